@@ -136,10 +136,10 @@ def decodeRequestLine (target : Str) : Str :=
 /-- what the gate does with PATH_INFO (no reverse proxy): `sanitize_path` -/
 def gatePath (pathInfo : Str) : Str := Path.sanitize pathInfo
 
-/-- hrefs of a multiget REPORT body: `sanitize_path(unquote(urlparse(href).path))`, path part only -/
+/-- hrefs of a multiget REPORT body: `sanitize_path(unquote(urlsplit(href).path))`, path part only (the split: UrlSplit.lean) -/
 def decodeMultigetHref (hrefPath : Str) : Str := Path.sanitize (unquote hrefPath)
 
-/-- MOVE Destination: `sanitize_path(unquote(urlparse(dest).path))` — the repaired behaviour (fix F12);
+/-- MOVE Destination: `sanitize_path(unquote(urlsplit(dest).path))` — the repaired behaviour (fix F12; the split: UrlSplit.lean);
     with `decodes := false` it is the defective one (no `unquote`). -/
 def decodeDestination (decodes : Bool) (destPath : Str) : Str :=
   Path.sanitize (if decodes then unquote destPath else destPath)
